@@ -21,6 +21,14 @@ CHECKS = {
           "Trusts Python int arithmetic; cases the statement leaves open (narrower value into a slice, extension to a narrower "
           "target) are not judged.",
           "DESIGN.md 3/C05"),
+  "C06": ("exploration",
+          "property-based testing (Hypothesis): generated bitstruct type shapes and values against an independent layout specification",
+          "Generated struct types (nested structs, 1-3 dimensional list fields, adjacent equal widths, awkward field names, "
+          "built with @bitstruct and mk_bitstruct) are checked for nbits, to_bits layout per leaf, both round trips, "
+          "equality/hash agreement with the packed value, clone/deepcopy independence, and the copy semantics of @= and <<=/_flip "
+          "(also from a Bits source).",
+          "The layout oracle (first field MSB, list element 0 LSB) is written from the property text and shares no code with bitstructs.py.",
+          "DESIGN.md 3/C06"),
 }
 
 NOT_YET = {}
